@@ -63,12 +63,14 @@ def sh(cmd, cwd=None, timeout=None, env=None):
 # ------------------------------------------------------------------------------------------------
 # one Verus unit
 # ------------------------------------------------------------------------------------------------
-def extract(unit, ucfg, repo, wdir, vacuity=False):
-    out = os.path.join(wdir, unit + ("_vac" if vacuity else "") + ".rs")
+def extract(unit, ucfg, repo, wdir, vacuity=False, ablate=False):
+    out = os.path.join(wdir, unit + ("_vac" if vacuity else "") + ("_abl" if ablate else "") + ".rs")
     mp = out[:-3] + ".map.json"
     cmd = [EXTRACTOR, "--repo", repo, "--template", os.path.join(VERIF, ucfg["template"]), "--out", out, "--map", mp]
     if vacuity:
         cmd.append("--vacuity")
+    if ablate:
+        cmd.append("--ablate")
     rc, so, se, dt = sh(cmd)
     return rc, se.strip(), out, mp
 
@@ -192,6 +194,42 @@ def classify(diags, regions, src_name):
 
 
 
+
+def ablation_pass(unit, ucfg, repo, wdir, tier, regions, und):
+    """Fallback for functions whose full query ran into the resource limit: verify the "body obligations only" variant
+    (extractor --ablate: every end-of-loop / end-of-function proof block is replaced by assume(false)).  Every obligation of
+    that variant is an obligation of the real function under the same assumptions (loop invariant at the head, path
+    conditions, the hints in front of it), so a failure found there is a genuine failed obligation; a pass decides nothing."""
+    targets = {}
+    for u in und:
+        if "Resource limit" in u.get("message", "") and u.get("line"):
+            reg = region_of(regions, u["line"])
+            if reg and reg["kind"] == "fn" and reg.get("mode") == "prove":
+                targets[reg["name"]] = reg
+    if not targets:
+        return [], und, []
+    rc, err, asrc, amp = extract(unit, ucfg, repo, wdir, ablate=True)
+    if rc != 0:
+        return [], und, []
+    aregions = load_json(amp)["regions"]
+    found, decided, notes = [], set(), []
+    for name in targets:
+        vs = run_verus("%s_abl_%s" % (unit, re.sub(r"\W", "_", name))[:80], asrc, wdir, tier, None, RLIMIT,
+                       ["--verify-root", "--verify-function", name.split("@")[-1]], False)
+        f2, u2 = classify(vs["diags"], aregions, os.path.basename(asrc))
+        mine = [x for x in f2 if x["region"] == name]
+        if mine:
+            for x in mine:
+                x["found_by"] = "body-obligations-only pass (the full query hit the resource limit)"
+                x["confirmed"] = True
+            found += mine
+            decided.add(name)
+            notes.append({"function": name, "note": "full query: resource limit; body-only variant: %d failed obligation(s)" % len(mine)})
+        else:
+            notes.append({"function": name, "note": "full query: resource limit; body-only variant decided nothing"})
+    und2 = [u for u in und if not ("Resource limit" in u.get("message", "") and u.get("line") and (region_of(regions, u["line"]) or {}).get("name") in decided)]
+    return found, und2, notes
+
 def enclosing_fn_name(lines, line):
     """name of the function whose text contains `line` (1-based) in the assembled file"""
     for i in range(min(line, len(lines)) - 1, -1, -1):
@@ -290,6 +328,9 @@ def do_unit(unit, ucfg, repo, wdir, tier, prop):
     # the flakiness of borderline queries whose outcome depends on what the shared solver process did before them.
     if fails:
         fails, R["unstable"] = confirm_failures(unit, src, wdir, tier, regions, src_name, fails)
+    # functions that ran into the resource limit: try the body-obligations-only variant
+    extra, und, R["rlimit_fallback"] = ablation_pass(unit, ucfg, repo, wdir, tier, regions, und)
+    fails = fails + extra
     R["fails"] = fails
     R["undecided"] = und
     R["verified_items"] = vres.get("verified", 0)
@@ -558,7 +599,7 @@ def main():
             "rewrite_rules_fired": {r["unit"]: r.get("rules_fired", {}) for r in results},
             "vacuity": {r["unit"]: r.get("vacuity") for r in results},
             "vacuity_canaries": {r["unit"]: r.get("canaries") for r in results},
-            "units": [{"unit": r["unit"], "status": r["status"], "verified_items": r.get("verified_items"), "wall_s": r["wall_s"], "smt_ms": r.get("smt_ms"), "extra_z3_seeds": r.get("seed_runs"), "unstable_not_reported": r.get("unstable") or []} for r in results],
+            "units": [{"unit": r["unit"], "status": r["status"], "verified_items": r.get("verified_items"), "wall_s": r["wall_s"], "smt_ms": r.get("smt_ms"), "extra_z3_seeds": r.get("seed_runs"), "unstable_not_reported": r.get("unstable") or [], "rlimit_fallback": r.get("rlimit_fallback") or []} for r in results],
             "slow_functions_over_5s": [f["name"] for f in fns if f.get("smt_ms", 0) and f["smt_ms"] > 5000],
             "smt_ms_property_functions": smt_ms,
             "kani": kani_res,
